@@ -11,12 +11,18 @@ class C11(LoopCheck):
     flows = ("resume",)
     thorough_schedules = ["fixed1", "fixed2", "fixed4", "adaptive_half", "adaptive_cap3"]
     adaptive_N3 = ("adaptive_half", "adaptive_cap3")
-    required_labels = ["c11/resume/ladder", "c11/resume/history_len", "c11/resume/evidence"]
+    required_labels = ["c11/resume/ladder", "c11/resume/history_len", "c11/resume/evidence", "c11/resume_constructor/ladder", "c11/resume_constructor/evidence"]
 
     def configs(self, tier):
         out = super().configs(tier)
         for c in out:
             c["routes"] = ["bytes", "live_dict"] if tier == "quick" else ["bytes", "dict", "live_dict", "file"]
+        # the resume-from-file constructor: real Aspire.sample_posterior writes
+        # config / flow / checkpoints to a real HDF5 file; Aspire.resume_from_file
+        # rebuilds the instance and sample_posterior continues the run
+        for sched in (["fixed2"] if tier == "quick" else ["fixed2", "fixed4", "adaptive_half"]):
+            out.append({"name": f"resume_file-{sched}", "flow": "resume_file", "schedule": sched, "n_final": False, "sampler": "MiniPCNSMC",
+                        "N": 2, "d": 1, "T": 4 if sched == "fixed4" else 2, "D": 4, "timeout_ms": 120000, "all_crash_points": tier != "quick"})
         if tier == "quick":
             extra = dict(out[1])
             extra["routes"] = ["dict", "file"]
